@@ -1810,6 +1810,9 @@ class ArmV6:
             if not opcode_c:
                 raise UndefinedInstructionException()
             opcode_c = opcode_c.from_bitarray(instr, self)
+            if not opcode_c:
+                # UNPREDICTABLE encoding rejected by from_bitarray: treat as undefined
+                raise UndefinedInstructionException()
             self.execute_instruction(opcode_c)
             self.increment_pc_if_needed()
         except EndOfInstruction:
